@@ -333,5 +333,19 @@ theorem step_tokInv {s s' : State} {a : Action} (h : TokInv s) (hs : step s a = 
       · simpa using h.cap p hg.1
       · simp [Pipe.cancelled]
     · contradiction
+  | rTrunc p u =>
+    simp only [step] at hs
+    split at hs
+    · rename_i hg
+      injection hs with hs; subst hs
+      apply tokInv_setPipe h hg.1
+      · have : holdCnt (if (s.pipe p).rpc = .sel ∧ u = 0 then RPc.fin else (s.pipe p).rpc) = holdCnt (s.pipe p).rpc := by
+          split
+          · rename_i hc; simp [holdCnt, hc.1]
+          · rfl
+        simp [this]
+      · simpa using h.cap p hg.1
+      · exact id
+    · contradiction
 
 end Octo.JsonPipe
